@@ -99,6 +99,10 @@ class ClassInfo:
                     return c.methods[name]
         return None
 
+    def is_enum_like(self) -> bool:
+        """Members of Enum classes are objects, not the values written in the class body."""
+        return any(b in ("Enum", "IntEnum", "StrEnum", "Flag", "IntFlag") for c in self.mro() for b in c.base_names)
+
     def find_class_attr(self, name: str):
         for c in self.mro():
             if name in c.class_attrs:
